@@ -1706,6 +1706,20 @@ def _is_read_after_loop(names: Collection[str], loop: ast.AST, root: ast.AST) ->
     return False
 
 
+def _is_name_assigned(name: str, root: ast.AST) -> bool:
+    """Is name (a builtin) given another meaning anywhere in root?"""
+    template = (
+        ast.Name(id=name, ctx=(ast.Store, ast.Del)),
+        ast.arg(arg=name),
+        ast.FunctionDef(name=name),
+        ast.AsyncFunctionDef(name=name),
+        ast.ClassDef(name=name),
+        ast.alias(name=name, asname=None),
+        ast.alias(asname=name),
+    )
+    return any(True for _ in core.walk(root, template))
+
+
 def _names_in(*nodes: ast.AST) -> Collection[str]:
     return {name.id for node in nodes for name in core.walk(node, ast.Name)}
 
@@ -1848,24 +1862,24 @@ def replace_for_loops_with_set_list_comp(source: str) -> str:
             yield n2, None, transaction
 
         elif core.match_template(body_node, augass_template):
-            if isinstance(value, ast.List):
-                replacement = ast.ListComp(elt=body_node.value, generators=generators)
-            else:
-                comprehension = ast.GeneratorExp(elt=body_node.value, generators=generators)
-                replacement = ast.Call(func=ast.Name(id="sum"), args=[comprehension], keywords=[])
+            # Repeated += or -= is only known to be a sum when it starts from an integer: on a list
+            # += extends, on a str it concatenates, and sum() adds floats in a different way.
+            integer_template = ast.Constant(value=int)
+            if not core.match_template(
+                value, (integer_template, ast.UnaryOp(op=ast.USub, operand=integer_template))
+            ) or isinstance(getattr(value, "value", None), bool):
+                continue
 
-            try:
-                if not core.literal_value(value):
-                    if isinstance(body_node.op, ast.Sub):
-                        replacement = ast.UnaryOp(op=body_node.op, operand=replacement)
-                    yield value, replacement, transaction
-                    yield n2, None, transaction
-                    continue
+            if _is_name_assigned("sum", root):
+                continue
 
-            except ValueError:
-                pass
+            comprehension = ast.GeneratorExp(elt=body_node.value, generators=generators)
+            replacement = ast.Call(func=ast.Name(id="sum"), args=[comprehension], keywords=[])
+            if core.literal_value(value) != 0:
+                replacement = ast.BinOp(left=value, op=body_node.op, right=replacement)
+            elif isinstance(body_node.op, ast.Sub):
+                replacement = ast.UnaryOp(op=ast.USub(), operand=replacement)
 
-            replacement = ast.BinOp(left=value, op=body_node.op, right=replacement)
             yield value, replacement, transaction
             yield n2, None, transaction
 
